@@ -13,20 +13,23 @@ Variables lower upper : str -> str.
 Variable parse_tree : mapper -> tz -> res (option T * mapper * tz).
 Variable set_label : T -> option str -> T.
 Variable add_comments : T -> list str -> T.
+Variable a1 : bool.
 Variable sl : bool.
 Variable fac : tns_factory.
 Variable et : bool.
 
-Let c1 := mkNsCfg false (FacFixed sl).
-Let c2 := mkNsCfg true fac.
+Notation c1 := (mkNsCfg a1 (FacFixed sl)).
+Notation c2 := (mkNsCfg true fac).
 
 Definition inv (g : regs) : Prop := Forall (fun i => i = O) (g_reg g).
 Definition ns_ok (o : option nat) : Prop := o = None \/ o = Some O.
 
 Lemma new_tns_1 : forall k g t, exists g', new_tns c1 k g t = (O, k, g') /\ (inv g -> inv g').
 Proof.
-  intros k g t. unfold new_tns, c1. simpl. eexists. split; [reflexivity|].
-  unfold inv. simpl. intros H. apply Forall_app. split; [assumption | constructor; auto].
+  intros k g t. unfold new_tns. simpl. destruct a1.
+  - exists g. split; [reflexivity | auto].
+  - eexists. split; [reflexivity|].
+    unfold inv. simpl. intros H. apply Forall_app. split; [assumption | constructor; auto].
 Qed.
 
 Lemma new_tns_2 : forall k g t, new_tns c2 k g t = (O, k, g).
@@ -38,7 +41,9 @@ Proof. reflexivity. Qed.
 Lemma get_tns_1 : forall k g t i k' g',
   get_tns upper c1 k g t = Ok (i, k', g') -> inv g -> i = O /\ k' = k /\ inv g'.
 Proof.
-  intros k g t i k' g' H I. unfold get_tns in H. simpl in H. destruct t as [t|].
+  intros k g t i k' g' H I. unfold get_tns in H. simpl in H.
+  assert (EA : a1 = true \/ a1 = false) by (destruct a1; auto).
+  destruct EA as [EA|EA]; rewrite EA in H; [inversion H; subst; auto|]. destruct t as [t|].
   - match type of H with match ?f with _ => _ end = _ => destruct f as [|x [|y r]] eqn:EF end; try discriminate.
     inversion H; subst. repeat split; auto.
     assert (In i (filter (fun i0 => match nth i0 (g_labels g') None with
@@ -46,7 +51,7 @@ Proof.
       by (rewrite EF; left; reflexivity).
     apply filter_In in H0. destruct H0 as [H0 _]. unfold inv in I. rewrite Forall_forall in I. auto.
   - destruct (g_reg g) as [|x [|y r]] eqn:ER; try discriminate.
-    + destruct (new_tns_1 k g None) as [g1 [E1 I1]]. rewrite E1 in H. inversion H; subst. auto.
+    + destruct (new_tns_1 k g None) as [g1 [E1 I1]]. rewrite EA in E1. rewrite E1 in H. inversion H; subst. auto.
     + inversion H; subst. repeat split; auto. unfold inv in I. rewrite ER in I. inversion I; auto.
 Qed.
 
@@ -72,8 +77,11 @@ Proof.
   destruct (ns_get_taxon lower taxa label).
   - cbn [bind] in *. destruct (require_next_token z); cbn [bind] in *; try discriminate. apply IH. assumption.
   - destruct n as [n|]; [|discriminate].
-    rewrite andb_true_r in H.
-    destruct (n <=? Z.of_nat (length taxa))%Z; [discriminate|]. simpl andb. cbv iota.
+    assert (X : ((n <=? Z.of_nat (length taxa))%Z && negb (a1 && negb (is_nil taxa))) = false).
+    { destruct ((n <=? Z.of_nat (length taxa))%Z && negb (a1 && negb (is_nil taxa))); [discriminate | reflexivity]. }
+    assert (X2 : ((n <=? Z.of_nat (length taxa))%Z && negb (true && negb (is_nil taxa))) = false).
+    { destruct (n <=? Z.of_nat (length taxa))%Z; [|reflexivity]. simpl in *. destruct a1; simpl in *; [assumption|discriminate]. }
+    rewrite X in H. simpl in X2. simpl. rewrite X2.
     cbn [bind] in *. destruct (require_next_token z); cbn [bind] in *; try discriminate. apply IH. assumption.
 Qed.
 
